@@ -23,11 +23,13 @@ def decl_specs(tier):
     for s in c01.decl_specs('quick')[-200:]:
         if s.get('opts') and not (set(s['names']) & EXCLUDED):
             specs.append(s)
+    for c in ('i1', 'i3', 'dn', 'm0', 'b35', 'sn', 'su', 'sr', 'o1', 'r1', 'rs', 'sdn'):
+        specs.append({'names': [c], 'wrapper': 'd'})
     specs.extend(alphabet.families())
     return specs
 
 
-def check_value(dc, st, pv, how):
+def check_value(dc, st, pv, how, reuse=None, prev=None):
     st.inc('evaluations')
     srcline = dc.src.replace('\n', '; ')
     try:
@@ -45,25 +47,27 @@ def check_value(dc, st, pv, how):
         ref_roundtrips = False
     build = 'ir.construct(...)'
     try:
-        p = ir.construct(dc.mod, dc.P, pv, how)
+        p = ir.construct(dc.mod, dc.P, pv, 'attr' if how == 'reuse' else how, reuse=reuse)
     except Exception as e:
-        st.violate('construct-raises', 'building %r (%s) raised %r | %s' % (pv, how, e, srcline), dc.case(pv=pv.tojson(), how=how))
+        st.violate('construct-raises', 'building %r (%s) raised %r | %s' % (pv, how, e, srcline), dc.case(pv=pv.tojson(), how=how, prev=prev))
         return
     call = '%s [%s]' % (ir.value_src(pv), how)
+    if prev is not None:
+        call += ' on a packet that held %s and was packed' % ir.value_src(ir.val_fromjson(prev))
     got0 = ir.extract(p, dc.P, dc.pkts)
     if got0 != pv:
-        st.violate('construct-values', '%s holds %r | %s' % (call, got0, srcline), dc.case(pv=pv.tojson(), how=how), dc.snippet('print(%s)' % ir.value_src(pv)))
+        st.violate('construct-values', '%s holds %r | %s' % (call, got0, srcline), dc.case(pv=pv.tojson(), how=how, prev=prev), dc.snippet('print(%s)' % ir.value_src(pv)))
         return
     out = ea.impl_pack(p)
     st.add('states', (tuple(dc.spec.get('names', ())), dc.spec.get('wrapper'), repr(dc.spec.get('opts')), ref_roundtrips, out[0], len(exp)))
     st.add('outcomes', (ref_roundtrips, out[0]))
     if out[0] != 'ok' or out[1] != exp:
         shown = out[1] if out[0] == 'ok' else getattr(out[1], 'original_error_message', out[1])
-        st.violate('pack-bytes', '%s.pack() -> %r, expected %r | %s' % (call, shown, exp, srcline), dc.case(pv=pv.tojson(), how=how),
+        st.violate('pack-bytes', '%s.pack() -> %r, expected %r | %s' % (call, shown, exp, srcline), dc.case(pv=pv.tojson(), how=how, prev=prev),
                    dc.snippet('print(%s.pack())' % ir.value_src(pv)))
         return
     if ir.extract(p, dc.P, dc.pkts) != pv:
-        st.violate('pack-mutates', '%s changed by pack() to %r | %s' % (call, ir.extract(p, dc.P, dc.pkts), srcline), dc.case(pv=pv.tojson(), how=how))
+        st.violate('pack-mutates', '%s changed by pack() to %r | %s' % (call, ir.extract(p, dc.P, dc.pkts), srcline), dc.case(pv=pv.tojson(), how=how, prev=prev))
         return
     if not ref_roundtrips:
         st.inc('ref_nonroundtrip')
@@ -72,11 +76,11 @@ def check_value(dc, st, pv, how):
     u = ea.impl_unpack(dc.K, exp)
     if u[0] != 'ok':
         st.violate('reparse-fails', 'unpack(%s.pack() = %r) raised %s | %s' % (call, exp, getattr(u[1], 'original_error_message', u[1]), srcline),
-                   dc.case(pv=pv.tojson(), how=how), dc.snippet('print(%s.unpack(%r))' % (dc.P['name'], exp)))
+                   dc.case(pv=pv.tojson(), how=how, prev=prev), dc.snippet('print(%s.unpack(%r))' % (dc.P['name'], exp)))
         return
     got = ir.extract(u[1], dc.P, dc.pkts)
     if got != pv:
-        st.violate('reparse-values', 'unpack(%s.pack() = %r) -> %r | %s' % (call, exp, got, srcline), dc.case(pv=pv.tojson(), how=how),
+        st.violate('reparse-values', 'unpack(%s.pack() = %r) -> %r | %s' % (call, exp, got, srcline), dc.case(pv=pv.tojson(), how=how, prev=prev),
                    dc.snippet('print(%s.unpack(%r))' % (dc.P['name'], exp)))
         return
     try:
@@ -84,25 +88,30 @@ def check_value(dc, st, pv, how):
     except Exception as e:
         end = e
     if end != len(exp):
-        st.violate('reparse-end', 'unpack_impl(%r) returned %r, not %d | %s' % (exp, end, len(exp), srcline), dc.case(pv=pv.tojson(), how=how))
+        st.violate('reparse-end', 'unpack_impl(%r) returned %r, not %d | %s' % (exp, end, len(exp), srcline), dc.case(pv=pv.tojson(), how=how, prev=prev))
         return
     try:
         cons = p.assert_consistency()
     except Exception as e:
         cons = e
     if cons is not True:
-        st.violate('assert-consistency', '%s.assert_consistency() -> %r | %s' % (call, cons, srcline), dc.case(pv=pv.tojson(), how=how))
+        st.violate('assert-consistency', '%s.assert_consistency() -> %r | %s' % (call, cons, srcline), dc.case(pv=pv.tojson(), how=how, prev=prev))
         return
     if ir.extract(p, dc.P, dc.pkts) != pv:
-        st.violate('packet-mutated', '%s changed to %r | %s' % (call, ir.extract(p, dc.P, dc.pkts), srcline), dc.case(pv=pv.tojson(), how=how))
+        st.violate('packet-mutated', '%s changed to %r | %s' % (call, ir.extract(p, dc.P, dc.pkts), srcline), dc.case(pv=pv.tojson(), how=how, prev=prev))
 
 
 def check_decl(dc, st, tier, only=None):
     if only is not None:
-        check_value(dc, st, ir.val_fromjson(only['pv']), only['how'])
+        reuse = None
+        if only.get('prev') is not None:
+            reuse = ir.construct(dc.mod, dc.P, ir.val_fromjson(only['prev']), 'attr')
+            ea.impl_pack(reuse)
+        check_value(dc, st, ir.val_fromjson(only['pv']), only['how'], reuse=reuse, prev=only.get('prev'))
         return
     budget = ea.budget_for(dc, tier)
     seen = set()
+    carry = None
     for raw, r in ea.inputs_for(dc, budget):
         # rejected inputs are parsed too: a failed parse in between must not disturb the round trips that follow
         try:
@@ -117,6 +126,16 @@ def check_decl(dc, st, tier, only=None):
         seen.add(key)
         check_value(dc, st, r[1].pv, 'kw')
         check_value(dc, st, r[1].pv, 'attr')
+        if carry is not None:
+            # a packet that held the PREVIOUS value and was packed is given the new values attribute by attribute
+            check_value(dc, st, r[1].pv, 'reuse', reuse=carry[0], prev=carry[1])
+        carry = None
+        try:
+            c0 = ir.construct(dc.mod, dc.P, r[1].pv, 'attr')
+            if ea.impl_pack(c0)[0] == 'ok':
+                carry = (c0, r[1].pv.tojson())
+        except Exception:
+            pass
         if 'seq' in dc.feats:
             check_value(dc, st, r[1].pv, 'inplace')
             # a packet constructed AFTER another one filled its lists in place starts from the declared defaults
